@@ -250,6 +250,12 @@ def space_case(rep, nf, nc, order, periodic, nested, dim, dtype_name):
             G[c][:] = np.array([SymReal(v) for v in gv[c]], dtype=object).reshape(G[c].shape)
     F = T.prolong(G)
     rep.side(f'{name}:prolong-preserves-type-and-shape', type(F) is cls and F.shape == ((ncomp,) if ncomp > 1 else ()) + nfs)
+    # value semantics: a later application to other data does not change (or share memory with) an earlier result
+    keep = [R(x) for x in np.asarray(F).ravel()]
+    G2 = cls(cp.init)
+    G2[...] = np.array([SymReal(z3.Real(f'h{j}')) for j in range(int(np.prod(G2.shape)))], dtype=object).reshape(G2.shape)
+    F2 = T.prolong(G2)
+    rep.side(f'{name}:prolong-result-not-changed-by-later-call', F2 is not F and not np.shares_memory(np.asarray(F), np.asarray(F2)) and all(a.eq(R(b)) for a, b in zip(keep, np.asarray(F).ravel())))
     # oracle: tensor product of the exact 1-D Lagrange weights
     WA = [lagrange_oracle(nfs[d], ncs[d], order, periodic) for d in range(dim)]
     W1 = WA[0]
@@ -552,6 +558,16 @@ def fft_transfer_case(rep, nf, nc, dim):
         try:
             Y = fn(X)
             ok = isinstance(Y, imex_mesh) and np.allclose(np.asarray(Y.impl).ravel(), ref @ np.asarray(X.impl).ravel(), atol=1e-12) and np.allclose(np.asarray(Y.expl).ravel(), ref @ np.asarray(X.expl).ravel(), atol=1e-12)
+            # value semantics of the result: a second application (other data) leaves the first result untouched, for both data types
+            for cls_ in (imex_mesh, mesh):
+                A1 = cls_(src.init, val=0.0)
+                A1[...] = rng.rand(*A1.shape)
+                A2 = cls_(src.init, val=0.0)
+                A2[...] = rng.rand(*A2.shape)
+                Y1 = fn(A1)
+                keep = np.array(Y1).tobytes()
+                Y2 = fn(A2)
+                rep.side(f'{name}:{lab}/{cls_.__name__}/result-not-changed-by-later-call', Y1 is not Y2 and np.array(Y1).tobytes() == keep and not np.shares_memory(np.asarray(Y1), np.asarray(Y2)))
             if not ok:
                 rep.violation(f'{PID}/fft-transfer/imex_mesh/{lab}/dim{dim}', f'{name}: {lab} of an imex_mesh returns {type(Y).__name__} / does not act per component', {'task': ['ffttransfer', nf, nc, dim], 'op': lab})
         except Exception as e:
